@@ -1570,10 +1570,16 @@ def check_no_bypass(rep, g):
     # --- field & module visibility
     fld = g.adt['variants'][0]['fields']
     rep.ob('R-VIS', len(fld) == 1 and fld[0]['vis'] == 'in:' + g.modpath, g, 'the single field is private to the generated module', {'vis': [f['vis'] for f in fld]})
-    parent = '::'.join(g.modpath.split('::')[:-1])
+    # the declaring module: the nearest enclosing *module* (a declaration may sit in a function body, which is not one)
+    parent = ''
+    for m in F.mods:
+        if m['path'] and g.modpath.startswith(m['path'] + '::') and len(m['path']) > len(parent) and m['path'] != g.modpath:
+            parent = m['path']
     want_mod_vis = 'crate' if not parent else 'in:' + parent
     rep.ob('R-VIS', g.mod['vis'] == want_mod_vis, g, 'the generated module is private to the declaring module', {'vis': g.mod['vis']})
-    exp = {'pub': 'pub', '': want_mod_vis, 'pub(crate)': 'crate', 'pub(self)': want_mod_vis}.get(d['vis'])
+    grand = '::'.join(parent.split('::')[:-1]) if parent else ''
+    exp = {'pub': 'pub', '': want_mod_vis, 'pub(crate)': 'crate', 'pub(self)': want_mod_vis,
+           'pub(super)': ('crate' if not grand else 'in:' + grand)}.get(d['vis'])
     allowed_names = {g.name, g.name + 'Error', g.name + 'ParseError'}
     seen = set()
     for u in F.uses:
